@@ -12,11 +12,12 @@
  *   part 0  observable result, compared with the model:
  *           ev=<body-data callbacks> sizes=<run-length list of payload sizes in order, N = NULL data> tot=<sum> crc=<crc32 of the
  *           delivered bytes> sml=<message_len> sel=<entity_len> layers=<decompressors in the chain> cep=<content_encoding_processing>
- *           trace=<verif trace bits> left=0 desync=- [data=<hex> when tot <= 64]
+ *           restart=<1 iff trace point 3 (decompressor restart) fired> nt=<gettimeofday calls> left=0 desync=- [data=<hex> when tot <= 64]
  *   part 1  implementation-only facts used by the property oracles: rcs=<stream return codes> nb=<body calls recorded>
  *   part 2  the recorded log, '@' followed by ';'-separated entries in call order (needs the link-time wrapping of htp_driver_decomp):
  *           C:<hex of the Content-Encoding value|N>      seen by the HEADERS hook, i.e. just before the chain is built
- *           B:<hex|N>                                   a call of htp_tx_res_process_body_data_ex(data|NULL)
+ *           B:<message_len at entry>:<hex|N>            a call of htp_tx_res_process_body_data_ex(data|NULL); message_len also grows
+ *                                                       outside these calls (chunked framing bytes), the model is told by how much
  *           N:<windowBits>:<rc>                         inflateInit2_
  *           I:<avail_in>:<avail_out>:<peek hex>:<consumed>:<rc>:<produced hex>      inflate
  *           E                                           inflateEnd
@@ -125,17 +126,17 @@ int __wrap_gettimeofday(struct timeval *tv, void *tz) {
     return 0;
 }
 static unsigned dz_nbody;
-static void dz_body_entry(const void *data, size_t len) {
+static void dz_body_entry(htp_tx_t *tx, const void *data, size_t len) {
     dz_nbody++;
-    dz_entry("B:");
+    dz_entry("B:"); dz_putn(&dz_log, (long long) (dz_dir ? tx->request_message_len : tx->response_message_len)); dz_puts(&dz_log, ":");
     if (data == NULL) dz_puts(&dz_log, "N"); else dz_puthex(&dz_log, (const unsigned char *) data, len);
 }
 htp_status_t __wrap_htp_tx_res_process_body_data_ex(htp_tx_t *tx, const void *data, size_t len) {
-    if (dz_active && dz_dir == 0 && tx != NULL) { dz_count_layers(tx->connp); dz_body_entry(data, len); }
+    if (dz_active && dz_dir == 0 && tx != NULL) { dz_count_layers(tx->connp); dz_body_entry(tx, data, len); }
     return __real_htp_tx_res_process_body_data_ex(tx, data, len);
 }
 htp_status_t __wrap_htp_tx_req_process_body_data_ex(htp_tx_t *tx, const void *data, size_t len) {
-    if (dz_active && dz_dir == 1 && tx != NULL) { dz_count_layers(tx->connp); dz_body_entry(data, len); }
+    if (dz_active && dz_dir == 1 && tx != NULL) { dz_count_layers(tx->connp); dz_body_entry(tx, data, len); }
     return __real_htp_tx_req_process_body_data_ex(tx, data, len);
 }
 /* the end-of-body call made from inside htp_transaction.c (htp_tx_state_response_complete_ex /
@@ -143,11 +144,11 @@ htp_status_t __wrap_htp_tx_req_process_body_data_ex(htp_tx_t *tx, const void *da
  * COMPLETE hook that runs right after it, under the condition the library uses for making the call. The model takes body calls
  * and external answers as two separate sequences, so only the order among the B entries matters. */
 static int dz_res_complete_cb(htp_tx_t *tx) {
-    if (dz_dir == 0 && tx->response_transfer_coding != HTP_CODING_NO_BODY) dz_body_entry(NULL, 0);
+    if (dz_dir == 0 && tx->response_transfer_coding != HTP_CODING_NO_BODY) dz_body_entry(tx, NULL, 0);
     return HTP_OK;
 }
 static int dz_req_complete_cb(htp_tx_t *tx) {
-    if (dz_dir == 1 && htp_tx_req_has_body(tx)) dz_body_entry(NULL, 0);
+    if (dz_dir == 1 && htp_tx_req_has_body(tx)) dz_body_entry(tx, NULL, 0);
     return HTP_OK;
 }
 static int dz_headers_cb(htp_tx_t *tx) {
@@ -173,6 +174,9 @@ static void dz_size_flush(void) {
 static int dz_body_cb(htp_tx_data_t *d) {
     long long sz = d->data == NULL ? -1 : (long long) d->len;
     dz_ev++;
+#ifdef DZ_WRAP
+    dz_count_layers(d->tx->connp);
+#endif
     if (dz_run_count && sz != dz_run_size) dz_size_flush();
     dz_run_size = sz; dz_run_count++;
     if (d->data != NULL) {
@@ -250,8 +254,12 @@ static int drv_decomp(char **f, int nf) {
 #ifdef DZ_WRAP
     layers = dz_layers_seen; nbody = dz_nbody;
 #endif
-    printf("ev=%u sizes=%s tot=%llu crc=%08lx sml=%lld sel=%lld layers=%u cep=%d trace=%x left=0 desync=-", dz_ev,
-           dz_sizes.n ? dz_sizes.p : "-", dz_tot, dz_crc & 0xffffffffUL, sml, sel, layers, cep, trace);
+    long long nclock = 0;
+#ifdef DZ_WRAP
+    nclock = dz_clock_calls;
+#endif
+    printf("ev=%u sizes=%s tot=%llu crc=%08lx sml=%lld sel=%lld layers=%u cep=%d restart=%u nt=%lld left=0 desync=-", dz_ev,
+           dz_sizes.n ? dz_sizes.p : "-", dz_tot, dz_crc & 0xffffffffUL, sml, sel, layers, cep, (trace >> 3) & 1u, nclock);
     if (dz_tot <= sizeof dz_keep) { printf(" data="); puthex(dz_keep, (size_t) dz_tot); }
     printf(" | rcs=%.*s nb=%u | %s", (int) nr, rcs, nbody, dz_log.n ? dz_log.p : "@");
     return 1;
